@@ -381,7 +381,7 @@ def emit_fix(T, oRule, oFile, cur, dFixOnly, pre_list_digest):
         if cheap_digest(lAll) != pre_list_digest:
             T.dirty = True
             T.emit({"e": "Fix", "rule": T.rid(oRule), "cls": info["cls"], "phase": oRule.phase or 0, "sub": oRule.subphase, "remap": bool(oRule.remap),
-                    "fixable": bool(oRule.fixable), "sevErr": oRule.severity.type == severity.error_type, "named": [], "mayDrop": False, "rep": [], "kept": [], "win": [], "afterU": T.us(lAll), "collat": [], "silent": True,
+                    "fixable": bool(oRule.fixable), "sevErr": oRule.severity.type == severity.error_type, "named": [], "mayDrop": False, "rep": [], "kept": [], "win": [], "afterU": T.us(lAll), "collat": [], "silent": True, "resync": True,
                     "full": T.abs_list(lAll), "sel": fix_only_sel(oRule, dFixOnly)})
         return
     L0, C0 = cur["L0"], cur["C0"]
@@ -424,6 +424,15 @@ def emit_fix(T, oRule, oFile, cur, dFixOnly, pre_list_digest):
     changed = bool(win) or cheap_digest(lAll) != pre_list_digest
     if not changed:
         return
+    # when the list after the fix is not the windows spliced last-first (what update() is specified to do), the model
+    # cannot follow from the windows alone: give it the full list so that the rest of the trace is still checked
+    full = None
+    if upd is not None:
+        sim = list(L0)
+        for (iStart, iEnd, post_abs, post_objs) in reversed(upd):
+            sim[iStart:iEnd] = post_objs
+        if len(sim) != len(lAll) or any(a is not b for a, b in zip(sim, lAll)):
+            full = T.abs_list(lAll)
     T.dirty = True
     T.stats["fix_changing"] += 1
     T.emit(
@@ -444,6 +453,8 @@ def emit_fix(T, oRule, oFile, cur, dFixOnly, pre_list_digest):
             "afterU": T.us(lAll),
             "collat": collat,
             "silent": upd is None,
+            "resync": full is not None,
+            "full": full if full is not None else [],
             "sel": fix_only_sel(oRule, dFixOnly),
         }
     )
